@@ -298,7 +298,7 @@ func (t *Trans) havocComps(fr *Frame, w map[string]string, c *Contract, sc *Spec
 			continue
 		}
 		var conds []string
-		whole := false
+		whole := c == nil // a callee without contract may change anything it can write
 		if c != nil {
 			conds, whole = t.modifiesFor(c, comp, sc, "r!c")
 		}
